@@ -85,7 +85,14 @@ def sig_cases(tier: str, seed: int):
     rng = random.Random(1900 + seed)
     cases = []
     nid = 0
-    for di, d in enumerate(corpus.cfg_shapes()):
+    import random as _r
+    from .. import shapes as _sh
+    extra = []
+    rr = _r.Random(19)
+    for r, vs in (("u128", [3, 4, 5, 6]), ("i128", [-2, -1, 0, 1, 2]), ("u64", [10, 11, 12]), ("isize", [-1, 0, 1]),
+                  ("usize", [0, 1, 5, 6]), ("i128", [-9, -8, 100]), ("u16", list(range(0, 300))), ("i64", [-(1 << 63), -(1 << 63) + 1, 5])):
+        extra.append(_sh.build_decl(r, _sh.order_values(vs, "perm", rr), "sig_%s_%d" % (r, len(vs)), "dec", "first", rr))
+    for di, d in enumerate(corpus.cfg_shapes() + extra):
         gap = d.gapless()
         tuples = corpus.mode_tuples(gap, with_range=True)
         inline = [t for t in corpus.mode_tuples(gap, with_range=False) if t["iter"] == "table_inline"]
